@@ -3,6 +3,7 @@ package main
 import (
 	"fmt"
 	"go/ast"
+	"go/token"
 	"regexp"
 	"sort"
 	"strings"
@@ -656,6 +657,51 @@ func (c *Ctx) modelRules(r *Report, ss *ssa.Function) {
 			}
 			r.Check(found, "MODEL", hn, "Command."+f.fld, c.pos(h.Pos()), "← tag "+f.must, "Command."+f.fld+" is not taken from its tag")
 		}
+		// every Command/Group field written while a command field is scanned belongs to the command being declared
+		nOwn := 0
+		for _, fn := range c.Funcs {
+			if !c.actsFor(fn, h) {
+				continue
+			}
+			for _, in := range c.instrs(fn, func(x ssa.Instruction) bool { _, ok := x.(*ssa.Store); return ok }) {
+				st := in.(*ssa.Store)
+				fa, ok := st.Addr.(*ssa.FieldAddr)
+				if !ok {
+					continue
+				}
+				root := ssa.Value(fa)
+				isModel := false
+				for {
+					if u, ok := root.(*ssa.UnOp); ok && u.Op == token.MUL { // embedded *Group
+						if _, ok := u.X.(*ssa.FieldAddr); ok {
+							root = u.X
+							continue
+						}
+					}
+					f2, ok := root.(*ssa.FieldAddr)
+					if !ok {
+						break
+					}
+					if tn := relType(c, f2.X.Type()); tn == "*Command" || tn == "*Group" {
+						isModel = true
+					}
+					root = f2.X
+				}
+				after := false
+				for _, ac := range c.instrs(fn, c.isCallTo("(*Command).AddCommand")) {
+					if c.reachableFrom(fn, ac, isInstr(st)) {
+						after = true
+					}
+				}
+				if !isModel || !after {
+					continue
+				}
+				nOwn++
+				rt := c.term(root)
+				r.Check(strings.HasPrefix(rt, "call:(*Command).AddCommand("), "MODEL", hn, "tag-derived command attributes are written to the command being declared", c.ipos(st), "the written object is the result of AddCommand for this field", "a field of "+trunc(rt, 80)+" is written while scanning a command field: the attribute lands on another command")
+			}
+		}
+		r.Check(nOwn >= 3, "MODEL", hn, "command attribute stores found", c.pos(h.Pos()), "≥ 3", fmt.Sprintf("%d", nOwn))
 		so := c.Field("Command", "SubcommandsOptional")
 		for _, s := range c.storesTo(so) {
 			if !c.actsFor(s.Fn, h) {
